@@ -164,7 +164,11 @@ def judge(module, traces, tag=None, jvms=4, workers=4, heap='3g', timeout=1800, 
                 for j in alive:
                     f.write(json.dumps(ch[j], ensure_ascii=True))
                     f.write('\n')
-        res['alive'] = alive
+        # hundreds of records of one chunk were outside the domain of the specification: each of them is a REJECT already;
+        # the records not reached are left unjudged (NA) instead of failing the whole run
+        for j in alive:
+            forced[(ci, j)] = ('NA', 'not judged: the batch was abandoned after 400 records outside the domain of the specification')
+        res = dict(res, out='', states=0, distinct=0, alive=[], abandoned=True)
         return res
 
     with ThreadPoolExecutor(max_workers=len(chunks)) as ex:
@@ -172,7 +176,7 @@ def judge(module, traces, tag=None, jvms=4, workers=4, heap='3g', timeout=1800, 
     verdicts = []
     stats = dict(states=0, distinct=0, wall=0.0)
     for ci, (ch, res) in enumerate(zip(chunks, results)):
-        if tlc_failed(res):
+        if tlc_failed(res) and not res.get('abandoned'):
             keep = os.path.join(WORK, f'failed_{tag}_{ci}.out')
             with open(keep, 'w') as f:
                 f.write(res['out'])
